@@ -40,6 +40,34 @@ var hookFuncs = map[string]bool{"blockBeginner": true, "blockEnder": true, "hand
 	"doEthTransitions": true, "doTransitions": true, "ExpireProposals": true, "FinalizeProposals": true, "AddInternalTX": true,
 	"commitor": true, "chainInitializer": true}
 
+// pinnedFns: functions the Lean models port by hand; the normalised source (comments and layout
+// removed) of each is hashed into OLP/Gen/Facts.lean so that ANY edit of a ported function has to
+// be acknowledged in OLP/Shell/Expect.lean (and is searched dynamically by the property's engines).
+var pinnedFns = map[string]bool{}
+
+func init() {
+	for _, f := range []string{
+		// C09 store stack
+		"storage.State.Get", "storage.State.Set", "storage.State.Exists", "storage.State.Delete", "storage.State.Write", "storage.State.Commit",
+		"storage.State.Iterate", "storage.State.IterateRange", "storage.State.BeginTxSession", "storage.State.CommitTxSession", "storage.State.DiscardTxSession",
+		"storage.State.deleted", "storage.State.rawCache", "storage.isTombstone",
+		"storage.sessionCache.Get", "storage.sessionCache.Set", "storage.sessionCache.Delete", "storage.sessionCache.Exists", "storage.sessionCache.Iterate", "storage.sessionCache.BeginSession",
+		"storage.cacheSession.Get", "storage.cacheSession.Set", "storage.cacheSession.Delete", "storage.cacheSession.Exists", "storage.cacheSession.Commit",
+		"storage.GasStore.Get", "storage.GasStore.Set", "storage.GasStore.Exists", "storage.GasStore.Delete", "storage.gasCalculator.Consume",
+		"storage.ChainState.Commit", "storage.ChainState.Set", "storage.ChainState.Delete", "storage.ChainState.Get", "storage.ChainState.Exists", "storage.ChainState.loadDB",
+		// shell (C01, C05-C08)
+		"app.App.txDeliverer", "app.App.txChecker", "app.App.commitor", "app.App.infoServer", "app.App.GetTxFromCache", "app.App.VerifyCache",
+		// C02/C03 value accounting leaves
+		"data/balance.Coin.Plus", "data/balance.Coin.Minus", "data/balance.Coin.IsValid", "data/balance.Store.AddToAddress", "data/balance.Store.MinusFromAddress",
+		"action.Amount.ToCoin", "action.Amount.ToCoinWithBase", "action.Amount.IsValid", "action.BasicFeeHandling", "action.StakingPayerFeeHandling",
+		"action/transfer.runTx", "action/transfer.runSendPool",
+		// C04
+		"action.ValidateBasic", "action.RawTx.RawBytes", "action.SignedTx.SignedBytes",
+	} {
+		pinnedFns[f] = true
+	}
+}
+
 var consensusPkgs = []string{"app", "identity", "data/...", "action/...", "event", "storage", "vm", "utils", "serialize", "external_apps/..."}
 
 func render(fset *token.FileSet, n ast.Node) string {
@@ -116,7 +144,7 @@ func main() {
 		fmt.Fprintln(os.Stderr, "load:", err)
 		os.Exit(1)
 	}
-	var hookAims, sessionRule, mapRanges, envUses, volatileSets, fatalSites, signerRows, checkRuns, checkStateDB rows
+	var hookAims, sessionRule, mapRanges, envUses, volatileSets, fatalSites, signerRows, checkRuns, checkStateDB, pinned rows
 	nerr := 0
 	for _, pkg := range pkgs {
 		for _, e := range pkg.Errors {
@@ -141,6 +169,12 @@ func main() {
 					fn = strings.TrimPrefix(render(pkg.Fset, fd.Recv.List[0].Type), "*") + "." + fn
 				}
 				qfn := short + "." + fn
+				if pinnedFns[qfn] {
+					var b bytes.Buffer
+					printer.Fprint(&b, pkg.Fset, &ast.FuncDecl{Name: fd.Name, Recv: fd.Recv, Type: fd.Type, Body: fd.Body})
+					h := sha256.Sum256([]byte(strings.Join(strings.Fields(b.String()), " ")))
+					pinned = append(pinned, []string{qfn, hex.EncodeToString(h[:6])})
+				}
 				// ---- hook aims (package app only)
 				if short == "app" && hookFuncs[fd.Name.Name] {
 					aimed := map[ast.Node]bool{}
@@ -448,6 +482,7 @@ func main() {
 	sortRows(signerRows)
 	sortRows(checkRuns)
 	sortRows(checkStateDB)
+	sortRows(pinned)
 	sortRows(sessionRule)
 	// hookAims keep source order per function; sort functions by name (stable)
 	sort.SliceStable(hookAims, func(i, j int) bool { return hookAims[i][0] < hookAims[j][0] })
@@ -473,6 +508,7 @@ func main() {
 	sb.WriteString(signerRows.lean("signerRows", "Use", use))
 	sb.WriteString(checkRuns.lean("checkRuns", "Use", use))
 	sb.WriteString(checkStateDB.lean("checkStateDB", "Use", use))
+	sb.WriteString(pinned.lean("pinned", "Use", use))
 	// option-copy setters of InitChain vs start-up, normalised to "<store>.<setter>"
 	norm := func(fn string) rows {
 		var r rows
